@@ -85,6 +85,9 @@ type Violation struct {
 	Case     Case   `json:"case"`
 	Detail   string `json:"detail"`
 	Gen      string `json:"gen,omitempty"`
+	// Confirmed: the custom runner already reproduced / directly observed
+	// this (e.g. a race-detector report); the driver does not probe it again.
+	Confirmed bool `json:"confirmed,omitempty"`
 }
 
 // Key identifies a violation for the known-findings file.
@@ -217,6 +220,15 @@ func (w *Worker) Observe(set, key string) {
 }
 
 func (w *Worker) Count(name string, n uint64) { w.counters[name] += n }
+
+// ViolateConfirmed records a violation that needs no fresh-process probe.
+func (w *Worker) ViolateConfirmed(kind, detail string) {
+	n := len(w.viols)
+	w.Violate(kind, detail)
+	if len(w.viols) > n {
+		w.viols[len(w.viols)-1].Confirmed = true
+	}
+}
 
 // SetCur sets the case that Violate attributes to (custom runners).
 func (w *Worker) SetCur(c Case) { w.cur = c }
